@@ -521,6 +521,16 @@ def op_add_relation(st, op):
             child.end += by
             return child
         kw["child_func"] = child_func2
+    elif cf in ("retype", "reseq"):
+        to = op["to"]
+
+        def child_func4(parent, child, what=cf):
+            if what == "retype":
+                child.featuretype = to
+            else:
+                child.seqid = to
+            return child
+        kw["child_func"] = child_func4
     elif cf == "raise":
         def child_func3(parent, child):
             raise ValueError("user child_func failed")
@@ -1050,7 +1060,21 @@ def run_prelude(st):
             list(db3.all_features())
         except Exception:
             pass
-    f = db = db2 = db3 = it = None
+        try:
+            # the same for the GTF importer: other keys for gene / transcript / subfeature, no id_spec of the caller's own
+            gtf2 = os.path.join(d, "other_keys.gtf")
+            with seams._real_open(gtf2, "w") as fh:
+                fh.write('chrP\tpre\tCDS\t10\t20\t.\t+\t0\tlocus "L1"; tx "X1";\n'
+                         'chrP\tpre\tCDS\t30\t40\t.\t+\t0\tlocus "L1"; tx "X1";\n'
+                         'chrP\tpre\tCDS\t50\t60\t.\t+\t0\tlocus "L1"; tx "X2";\n')
+            db4 = gffutils.create_db(gtf2, os.path.join(d, "other_keys.db"), gtf_gene_key="locus", gtf_transcript_key="tx",
+                                     gtf_subfeature="CDS", merge_strategy="create_unique")
+            list(db4.all_features())
+            db4.update('chrP\tpre\tCDS\t70\t80\t.\t+\t0\tlocus "L2"; tx "X3";\n', from_string=True, gtf_gene_key="locus",
+                       gtf_transcript_key="tx", gtf_subfeature="CDS", merge_strategy="create_unique", make_backup=False)
+        except Exception:
+            pass
+    f = db = db2 = db3 = db4 = it = None
     gc.collect()
     env._used("prelude")
 
